@@ -175,16 +175,16 @@ def tlc_model_check(run, module, cfg, workers=8, timeout=600, extra=(), env=None
     return {"generated": gen, "distinct": dist, "out": out}
 
 
-def tlc_generate(run, module, consts, invariant='Emit', timeout=300, label='gen'):
+def tlc_generate(run, module, consts, invariant='Emit', timeout=600, label='gen', extra_cfg='', workers=1):
     """Runs TLC on a behaviour-generation spec; returns the JSON values it printed (one per behaviour)."""
     cfg = os.path.join(run.work, '%s-%s-%d.cfg' % (module, label, len(run.phases)))
     with open(cfg, 'w') as f:
         f.write('SPECIFICATION Spec\nCONSTANTS\n')
         for k, v in consts.items():
             f.write('  %s = %s\n' % (k, ('TRUE' if v else 'FALSE') if isinstance(v, bool) else json.dumps(v) if isinstance(v, str) else v))
-        f.write('INVARIANT %s\nCHECK_DEADLOCK FALSE\n' % invariant)
+        f.write('INVARIANT %s\nCHECK_DEADLOCK FALSE\n%s\n' % (invariant, extra_cfg))
     metadir = os.path.join(run.work, 'gmeta-%d' % len(run.phases))
-    cmd = _tlc_cmd(module + '.tla', cfg, metadir, 1, xss='64m', xmx='4g')
+    cmd = _tlc_cmd(module + '.tla', cfg, metadir, workers, xss='64m', xmx='6g')
     t0 = time.time()
     try:
         r = subprocess.run(cmd, cwd=SPEC, capture_output=True, text=True, timeout=timeout)
